@@ -28,7 +28,7 @@ META = {
              "larger buffer; distinct by (variant, kernel, presentation, operand contents)"),
     "require": {"quick": ["bc:kernel_calls", "asan:kernel_calls", "asan:canary_detected", "bc:checks_on",
                           "asan:many_calls", "bc:many_calls", "asan:insitu_calls", "bc:insitu_calls",
-                          "one_empty_operand_calls"],
+                          "one_empty_operand_calls", "class:very_unequal_lengths"],
                 "thorough": ["bc:kernel_calls", "asan:kernel_calls", "asan:canary_detected", "bc:checks_on",
                              "asan:many_calls", "bc:many_calls", "asan:insitu_calls", "bc:insitu_calls",
                              "one_empty_operand_calls"]},
@@ -41,7 +41,7 @@ META = {
 }
 
 PRES_PAIRS = [("own", "own"), ("view_in_buffer", "view_in_buffer"), ("strided", "own"), ("own", "strided"),
-              ("readonly", "readonly"), ("view_in_buffer", "own")]
+              ("readonly", "readonly"), ("view_in_buffer", "own"), ("reversed", "strided"), ("strided", "reversed")]
 
 
 def shards(tier):
@@ -195,8 +195,16 @@ def run_pair(ctx, g, so, a, b, sa, sb, pl, pr):
         res = g.call("kernel_calls", fn, (a, b), case, nt, (name, pl, pr, a.tobytes(), b.tobytes()))
         if res is not None:
             exp = sorted(K.OPS[name](sa, sb))
-            if not isinstance(res, numpy.ndarray) or res.tolist() != exp:
+            got = res.tolist() if isinstance(res, numpy.ndarray) else None
+            if got != exp:
                 ctx.count("wrong_result_seen(C08's business)")
+                # the words around / between the elements of a view hold sentinels that occur in neither
+                # operand: a sentinel in the output proves a read outside the input arrays (inside the
+                # base buffer, where neither red zones nor memoryview bounds checks can see it)
+                leaked = [v for v in (got or []) if v in K.SENTINELS and v not in sa and v not in sb]
+                if leaked:
+                    ctx.violation("read-outside-input:sentinel-in-output:%s:%s/%s" % (name, pl, pr),
+                                  "%s returned %r: buffer words that are not elements of the operands were read" % (name, [hex(v) for v in leaked[:3]]), case)
 
 
 def judge(ctx, case):
@@ -243,6 +251,15 @@ def run_shard(ctx):
     elif kind == "random":
         for n in range(s["n"]):
             a, b = K.random_pair(rng, maxlen=int(K.pickone(rng, [3, 20, 300])))
+            if n % 4 == 3:
+                # very unequal lengths (where a search-based shortcut would apply), either order,
+                # the short operand reaching beyond / staying below the long one
+                long_ = numpy.unique(rng.integers(10, 5000, size=int(rng.integers(40, 400)))).astype(U32)
+                short = numpy.unique(rng.integers(0, 6000, size=int(rng.integers(1, 6)))).astype(U32)
+                if rng.random() < 0.5:
+                    short = numpy.unique(numpy.concatenate([short, long_[-1:] + U32(rng.integers(0, 3))]))
+                a, b = (long_, short) if rng.random() < 0.5 else (short, long_)
+                ctx.count("class:very_unequal_lengths")
             pl, pr = K.pickone(rng, PRES_PAIRS)
             a2, b2 = present(a.tolist(), pl, rng), present(b.tolist(), pr, rng)
             run_pair(ctx, g, so, a2, b2, set(a.tolist()), set(b.tolist()), pl, pr)
